@@ -7,8 +7,7 @@ From Coq Require Import ZifyN ZifyNat ZifyBool Lia.
 Open Scope N_scope.
 
 Theorem rf_next_is_ref src blen t d :
-  wf (sdata src) -> spos src <= len (sdata src) -> sfinal src <> e_fuel ->
-  len (sdata src) - spos src < two31 -> t < 256 ->
+  wf (sdata src) -> spos src <= len (sdata src) -> sfinal src <> e_fuel -> t < 256 ->
   match rp inl_none d t (drop (spos src) (sdata src)) with
   | Ok (n, _) => exists s', rf_next_depth (rf_new src blen) t d
                               = (s', Ok (take n (drop (spos src) (sdata src)))) /\
@@ -17,13 +16,13 @@ Theorem rf_next_is_ref src blen t d :
   | _ => False
   end.
 Proof.
-  intros W Hp Hf Hlen Ht. unfold rf_next_depth, rf_new. cbn [rf_src rf_len].
+  intros W Hp Hf Ht. unfold rf_next_depth, rf_new. cbn [rf_src rf_len].
   set (r := drop (spos src) (sdata src)).
   set (s0 := {| rf_src := src; rf_n := 0; rf_buf := []; rf_len := blen |}).
   assert (HR : rf_rep (sdata src) (spos src) s0 r).
   { unfold rf_rep, rf_rep0, s0. cbn [rf_src rf_n rf_buf]. repeat split; try assumption; try reflexivity. lia. }
   assert (HP : P (S (length (sdata src))) r).
-  { split; [unfold r, drop; rewrite skipn_length; lia|unfold r; rewrite len_drop; exact Hlen]. }
+  { unfold P, r, drop. rewrite skipn_length. lia. }
   pose proof (tskip_sim rf_state rf_skipN (rf_rep (sdata src) (spos src))
                 (rf_SN_ok _ _) (rf_SN_fail _ _) (rf_rep_wf _ _)
                 (S (length (sdata src))) d s0 r t HR Ht HP) as T.
